@@ -33,10 +33,10 @@ type c14Env struct {
 	mux      *larking.Mux
 	muxPlain *larking.Mux
 	muxStats *larking.Mux // the same service behind a stats handler and interceptors (protocol names ending in "+s")
-	seen metadata.MD
-	hdr  metadata.MD
-	trl  metadata.MD
-	fail bool
+	seen     metadata.MD
+	hdr      metadata.MD
+	trl      metadata.MD
+	fail     bool
 	// C14S: the handler's own, long-lived metadata objects, handed to SetHeader / SendHeader as they are
 	steps []c14Step
 }
